@@ -250,6 +250,18 @@ func jsonable(v any) any {
 	return json.RawMessage(b)
 }
 
+// caseJSON keeps a failing case whole (it becomes the replay file).
+func caseJSON(v any) any {
+	b, err := json.Marshal(v)
+	if err != nil {
+		return fmt.Sprintf("%+v", v)
+	}
+	if len(b) > 8<<20 {
+		return string(b[:4000]) + "…(truncated: case larger than 8 MiB)"
+	}
+	return json.RawMessage(b)
+}
+
 func (u *Unit) Note(format string, args ...any) {
 	u.mu.Lock()
 	u.notes = append(u.notes, fmt.Sprintf(format, args...))
@@ -285,7 +297,7 @@ func (u *Unit) Report(f *Finding, c any) bool {
 		return false
 	}
 	// keep at most a few violations per classifier, the smallest cases
-	v := violation{Finding: *f, Case: jsonable(c)}
+	v := violation{Finding: *f, Case: caseJSON(c)}
 	cnt := 0
 	for _, old := range u.violations {
 		if old.Classifier == f.Classifier {
@@ -339,7 +351,7 @@ func Rapid[C any](u *Unit, checks int, regress []C, draw func(*rapid.T) C, check
 		f := check(c)
 		if f != nil {
 			u.mu.Lock()
-			u.violations = append(u.violations, violation{Finding: *f, Case: jsonable(c)})
+			u.violations = append(u.violations, violation{Finding: *f, Case: caseJSON(c)})
 			u.mu.Unlock()
 			u.T.Logf("replay: still fails: [%s] %s", f.Classifier, f.What)
 		} else {
@@ -380,7 +392,7 @@ func Rapid[C any](u *Unit, checks int, regress []C, draw func(*rapid.T) C, check
 			}
 			u.mu.Lock()
 			u.frozen = true
-			u.lastFail = &violation{Finding: *f, Case: jsonable(c)}
+			u.lastFail = &violation{Finding: *f, Case: caseJSON(c)}
 			u.mu.Unlock()
 			rt.Fatalf("[%s] %s", f.Classifier, f.What)
 		})
